@@ -5,6 +5,7 @@ import PyYetiVerif.Lemmas.Op4AsciiPuts
 import PyYetiVerif.Lemmas.Op4AsciiHalf
 import PyYetiVerif.Lemmas.Op4Coo
 import PyYetiVerif.Lemmas.Op4Input
+import PyYetiVerif.Lemmas.Op4ReadBack
 /-!
 # C04 — OUTPUT4 write followed by read is the identity
 
@@ -778,5 +779,51 @@ example :
       ((prepare close add none (.list [[97], [98]]) (.list [v, s]) (.list [some 1])).map List.length) = some 1 ∧
       prepare close add none (.one [97]) (.one (.nd { shape := [1, 1, 1], cplx := false, elems := [] })) .none = none := by
   decide +kernel
+
+/-! ## The last step of the ASCII round trip: `float(decimal)`
+
+`Model/Op4AsciiBits.lean`: `decBits x` is the double CPython's `float()` returns for the exact decimal `x` (the
+correctly rounded `PyFloat.toBits`). -/
+
+/-- **read_back_bits.**  A *normal* double printed with `digits ≥ 16` (17 or more significant digits) reads back
+bit-identical: the field `fmtE d b` denotes the decimal `decOf d b` (`field_roundtrip`), which lies within half a
+unit of its last digit of the double (`ascii_value_half_unit`), and that is less than half (at the bottom of a
+binade: a quarter) of the spacing of the doubles there, so round-to-nearest returns the double. -/
+theorem read_back_bits (d b : Nat) (hd : 16 ≤ d) (hd' : d ≤ 5000) (hb : IsNormal b) :
+    (pyFloat? (fmtE d b)).map decBits = some b := by
+  rw [field_roundtrip d b (by omega), Option.map_some, decBits_decOf_normal d b hd hd' hb]
+
+/-- **read_back_bits, subnormals and zeros**: a subnormal double (exponent field 0) and `±0.0` read back
+bit-identical too — the spacing is `2^-1074` whatever the magnitude -/
+theorem read_back_bits_subnormal (d b : Nat) (hd : 16 ≤ d) (hd' : d ≤ 5000) (hb64 : b < 2 ^ 64)
+    (hef : b / 2 ^ 52 % 2048 = 0) : (pyFloat? (fmtE d b)).map decBits = some b := by
+  rw [field_roundtrip d b (by omega), Option.map_some]
+  by_cases hmf : b % 4503599627370496 = 0
+  · rw [decBits_decOf_zero d b hd' hb64 (by norm_num at hef; omega)]
+  · rw [decBits_decOf_subnormal d b hd hd' hb64 (by norm_num at hef; exact hef) hmf]
+
+/-- every finite double: `digits ≥ 16` makes the ASCII round trip of a value exact -/
+theorem read_back_bits_finite (d b : Nat) (hd : 16 ≤ d) (hd' : d ≤ 5000) (hb64 : b < 2 ^ 64)
+    (hfin : isFiniteD b = true) : (pyFloat? (fmtE d b)).map decBits = some b := by
+  by_cases hef : b / 2 ^ 52 % 2048 = 0
+  · exact read_back_bits_subnormal d b hd hd' hb64 hef
+  · apply read_back_bits d b hd hd'
+    refine ⟨hb64, ?_, ?_⟩
+    · norm_num at hef; omega
+    · unfold isFiniteD at hfin
+      have : b / 4503599627370496 % 2048 ≠ 2047 := by simpa using hfin
+      omega
+
+/-- 16 significant digits are not enough: `0.30000000000000004` printed with `digits = 15` reads back as `0.3`;
+with `digits = 16` it reads back as itself (non-vacuity of `read_back_bits`, also at the bottom of a binade and
+for the smallest normal and a subnormal double) -/
+theorem read_back_needs_17 :
+    decBits (decOf 15 0x3FD3333333333334) = 0x3FD3333333333333 ∧
+      decBits (decOf 16 0x3FD3333333333334) = 0x3FD3333333333334 ∧ IsNormal 0x3FD3333333333334 ∧
+      decBits (decOf 16 0x4340000000000000) = 0x4340000000000000 ∧
+      decBits (decOf 16 0x0010000000000000) = 0x0010000000000000 ∧
+      decBits (decOf 16 0x8000000000000001) = 0x8000000000000001 := by
+  refine ⟨by decide +kernel, by decide +kernel, ⟨by decide, by decide, by decide⟩, by decide +kernel,
+    by decide +kernel, by decide +kernel⟩
 
 end PyYetiVerif.C04
